@@ -404,10 +404,27 @@ package restful
 //@ requires wf: wfContainer(c)
 //@ requires unlocked: servicesLock(c) == 0
 //@ requires crw: !isCRW(httpWriter) || httpWriter.(*CompressingResponseWriter) != nil
-//@ modifies httpWriter.(*CompressingResponseWriter).compressor, headers, ghost $trace, ghost $g.held, ghost $g.ztarget, ghost $g.zclosed, ghost $g.accepted, ghost $g.lasterr, ghost $g.wcalls, ghost $g.wstatus, ghost $g.whcalls
+//@ modifies httpWriter.(*CompressingResponseWriter).compressor, headers, ghost $trace, ghost $g.held, ghost $g.ztarget, ghost $g.zclosed, ghost $g.accepted, ghost $g.lasterr, ghost $g.wcalls, ghost $g.wstatus, ghost $g.whcalls, ghost $g.own.closes
 //@ ensures lock-balance: servicesLock(c) == 0
 //@ signals lock-balance: servicesLock(c) == 0
 //@ signals contained: c.doNotRecover || lastCallee(calls(), c.recoverHandleFunc)
+// C07/C10: a compressing writer in use at exit has been closed exactly once by dispatch, on every exit
+//@ ensures closed: isCRW(writer) ==> ownCloses(writer.(*CompressingResponseWriter)) == ghostIntAtEntry("own.closes", writer.(*CompressingResponseWriter)) + 1
+//@ signals closed: isCRW(writer) ==> ownCloses(writer.(*CompressingResponseWriter)) == ghostIntAtEntry("own.closes", writer.(*CompressingResponseWriter)) + 1
+// C07: dispatch installs a coding only if enabled for this request, asked for, and not already encoded
+//@ ensures installed: isCRW(writer) && !isCRW(httpWriter) ==> err == nil && encodingEnabledFor(c, route) && strings.Contains(old(httpRequest.Header.Get("Accept-Encoding")), writer.(*CompressingResponseWriter).encoding) && old(hdrOf(httpWriter).Get("Content-Encoding")) == ""
+//@ ensures untouched: !isCRW(writer) ==> writer == httpWriter
+// C01: a route function is called only as the function of the selected route, with the request wrapper that names that route
+//@ callsite RouteFunction selected: err == nil && same(callee, route.Function) && arg0 == wrappedRequest && wrappedRequest.selectedRoute == route && arg1 == wrappedResponse && wrappedResponse.ResponseWriter == writer
+// C06: the chain handed to ProcessFilter is fresh, starts at 0 and is container ++ service ++ route filters around the route function; on routing errors container filters only
+//@ callsite (*FilterChain).ProcessFilter fresh: fresh(arg0) && arg0.Index == 0
+//@ callsite (*FilterChain).ProcessFilter routed: err == nil ==> same(arg0.Target, route.Function) && arg1 == wrappedRequest && arg2 == wrappedResponse && wrappedRequest.selectedRoute == route && wrappedResponse.ResponseWriter == writer && len(arg0.Filters) == len(c.containerFilters)+len(webService.filters)+len(route.Filters)
+//@ callsite (*FilterChain).ProcessFilter order1: err == nil ==> forall(0, len(c.containerFilters), func(k int) bool { return same(arg0.Filters[k], c.containerFilters[k]) })
+//@ callsite (*FilterChain).ProcessFilter order2: err == nil ==> forall(0, len(webService.filters), func(k int) bool { return same(arg0.Filters[len(c.containerFilters)+k], webService.filters[k]) })
+//@ callsite (*FilterChain).ProcessFilter order3: err == nil ==> forall(0, len(route.Filters), func(k int) bool { return same(arg0.Filters[len(c.containerFilters)+len(webService.filters)+k], route.Filters[k]) })
+//@ callsite (*FilterChain).ProcessFilter failed: err != nil ==> same(arg0.Filters, c.containerFilters) && arg1.selectedRoute == nil && arg2.ResponseWriter == writer
+// C10: the recover handler gets the writer in use, before dispatch has closed it
+//@ callsite RecoverHandleFunction active: arg1 == writer && (isCRW(writer) ==> ownCloses(writer.(*CompressingResponseWriter)) == ghostIntAtEntry("own.closes", writer.(*CompressingResponseWriter)))
 
 // ---------------------------------------------------------------------------
 // content encoding (C07, C13)
@@ -507,12 +524,13 @@ package restful
 // Representation invariant of CompressingResponseWriter: assumed whenever
 // package code reads such an object, proved wherever package code writes one
 // (its fields are unexported, so nothing else can).
-//@ typeinv CompressingResponseWriter: validCRW(self)
+//@ typeinv CompressingResponseWriter mutable compressor: validCRW(self)
 
 //@ func (*CompressingResponseWriter).Close
 //@ props C07 C10 C13
 //@ requires c != nil
 //@ modifies c.compressor, ghost $g.held, ghost $g.zclosed, ghost $g.accepted, ghost $g.lasterr, ghost $g.wcalls
+//@ ghostinc own.closes c
 //@ ensures open: old(c.compressor) != nil ==> result == nil && c.compressor == nil && heldBy(old(c.compressor)) == 0 && zClosed(old(c.compressor)) == old(zClosed(c.compressor)) + 1
 //@ ensures closed: old(c.compressor) == nil ==> result != nil && c.compressor == nil
 //@ nopanic
